@@ -64,10 +64,15 @@ def run(ctx):
     batch = Batch(ctx["driver_ok"])
     n_docs = 150 if tier == "quick" else 1500
 
+    forms = [0]
+
     def one(p, doc, text, mother, stable, label):
         case = {"kind": "chains", "label": label, "text": text if len(text) < 3000 else text[:200] + "...", "mother": mother, "stable": list(stable)}
+        forms[0] += 1
+        as_given = [list, tuple, set, frozenset, lambda s: dict.fromkeys(s, 1), list][forms[0] % 6](stable)
+        case["stable_given_as"] = type(as_given).__name__
         try:
-            impl = chain_canon_py(p.build_decay_chains(mother, stable_particles=list(stable)))
+            impl = chain_canon_py(p.build_decay_chains(mother, stable_particles=as_given))
         except Exception as e:
             res.violation(f"build_decay_chains raised {type(e).__name__}: {e}", case, clause="chain")
             res.case()
